@@ -323,3 +323,104 @@ def unconditional_calls(e):
             visit(c, cond)
     visit(e, False)
     return out
+
+
+def guided_exits(g, N, cut_edges=()):
+    """exit nodes (ret / term / exit) reachable from the entry when (a) the given edges are never taken and
+    (b) facts `v == 0` learnt from a branch on a local (`v`, `v != 0`, `v == 0`) are used to evaluate later
+    conditions on the same local until it is reassigned. A small path-sensitive refinement of reach_from that
+    removes the infeasible `fell out of the loop with v == NULL, then v != NULL` paths."""
+    from . import loops
+    cut_edges = set(cut_edges)
+    exits = {}
+    seen = set()
+    stack = [(g.entry, frozenset())]
+    while stack:
+        u, facts = stack.pop()
+        if (u, facts) in seen:
+            continue
+        seen.add((u, facts))
+        n = g.nodes[u]
+        if n['kind'] in ('ret', 'term', 'exit'):
+            exits[u] = n
+            if n['kind'] != 'ret':
+                continue
+        env = {v: 0 for v in facts}
+        if n['expr'] is not None and n['kind'] != 'cond':
+            for ev in expr_events(n['expr'], n):
+                if ev['t'] == 'write':
+                    l = N.canon(ev['lhs'])
+                    if l in env:
+                        facts = frozenset(f for f in facts if f != l)
+        for (v, l) in n['succ']:
+            if (u, l) in cut_edges:
+                continue
+            nf = facts
+            if n['kind'] == 'cond':
+                c = N.canon(n['expr'])
+                try:
+                    val = bool(loops.ev(c, env, unsigned=False)) if any(x in env for x in ir.walk(c)) else None
+                except loops.NoEval:
+                    val = None
+                if val is not None and val != l:
+                    continue
+                # learn v == 0
+                var = None
+                if c[0] == 'local' and l is False:
+                    var = c
+                elif c[0] == 'bin' and c[1] in ('==', '!=') and ('int', 0) in (c[2], c[3]):
+                    o = c[3] if c[2] == ('int', 0) else c[2]
+                    if o[0] == 'local' and ((c[1] == '==' and l is True) or (c[1] == '!=' and l is False)):
+                        var = o
+                if var is not None:
+                    nf = facts | {var}
+            stack.append((v, nf))
+    return list(exits.values())
+
+
+def walk_eval(g, N, env, start=None, stop=None, max_steps=300, unsigned=True):
+    """follow the CFG deterministically from `start` (default entry) under a concrete environment for some atoms
+    (canonical expressions -> ints): conditions must be evaluable, assignments to tracked atoms / locals are applied
+    when evaluable (otherwise the target is forgotten). Stops at node id in `stop`, at a ret/term/exit, or when a
+    condition cannot be evaluated. Returns (reason, node, env)."""
+    from . import loops
+    env = dict(env)
+    node = g.nodes[g.entry if start is None else start]
+    stop = set(stop or ())
+    for _ in range(max_steps):
+        if node['id'] in stop:
+            return ('stop', node, env)
+        k = node['kind']
+        if k in ('ret', 'term', 'exit'):
+            return (k, node, env)
+        if k == 'cond':
+            try:
+                v = bool(loops.ev(N.canon(node['expr']), env, unsigned=unsigned))
+            except loops.NoEval as e:
+                return ('noeval', node, env)
+            nxt = [w for (w, l) in node['succ'] if l == v]
+            if not nxt:
+                return ('noeval', node, env)
+            node = g.nodes[nxt[0]]
+            continue
+        if node['expr'] is not None:
+            for ev in expr_events(node['expr'], node):
+                if ev['t'] != 'write':
+                    continue
+                l = N.canon(ev['lhs'])
+                try:
+                    if ev['op'] == '=':
+                        env[l] = loops.ev(N.canon(ev['rhs']), env, unsigned=unsigned)
+                    elif ev['op'] in ('++', '--'):
+                        env[l] = env[l] + (1 if ev['op'] == '++' else -1)
+                    elif ev['op'] in ('+=', '-='):
+                        d = loops.ev(N.canon(ev['rhs']), env, unsigned=unsigned)
+                        env[l] = env[l] + d if ev['op'] == '+=' else env[l] - d
+                    else:
+                        env.pop(l, None)
+                except (loops.NoEval, KeyError):
+                    env.pop(l, None)
+        if not node['succ']:
+            return ('end', node, env)
+        node = g.nodes[node['succ'][0][0]]
+    return ('steps', node, env)
